@@ -34,6 +34,7 @@ public:
     SigVersion sigver;
     CScript script;
     CScript successor_script;
+    bool script_is_scriptsig = false; ///< `script` is the scriptSig of a legacy spend (the scriptPubKey that follows it may be empty)
     std::vector<valtype> stack;
     BaseSignatureChecker* checker;
     ScriptError error;
